@@ -79,8 +79,8 @@ theorem exprStmt_T {d : Nat} (e : Expr) (s s' : CState) (L : List Instr) (F : Li
     subst hi
     exact pop_ne_ret
 
-/-- The statements that never make the code after them dead for `optimizeFunc`. -/
-def passes : Stmt → Bool
+/-- The non-block statements that never make the code after them dead for `optimizeFunc`. -/
+def passes0 : Stmt → Bool
   | .expr _ => true
   | .assign _ [_] [_] => true
   | .incdec _ _ => true
@@ -91,7 +91,7 @@ def passes : Stmt → Bool
   | .export _ => true
   | _ => false
 
-theorem stmt_thru {d : Nat} (st : Stmt) (hp : passes st = true) (s s' : CState) (L : List Instr) (F : List Nat)
+theorem stmt_thru0 {d : Nat} (st : Stmt) (hp : passes0 st = true) (s s' : CState) (L : List Instr) (F : List Nat)
     (h : compileStmt (d + 1) st s = .ok ((), s')) (hinv : Inv s L F) (hsz : szS (d + 1) st < 2 ^ 30) :
     SResT s s' L F (szS (d + 1) st) := by
   cases st with
@@ -138,6 +138,130 @@ theorem stmt_thru {d : Nat} (st : Stmt) (hp : passes st = true) (s s' : CState) 
   | branch _ => cases hp
   | ret _ => cases hp
   | bad => cases hp
+
+
+mutual
+/-- The statements that never make the code after them dead for `optimizeFunc`: `passes0`, and a bare block
+`{ … }` all of whose statements pass (recursively). -/
+def passes : Stmt → Bool
+  | .block ss => passesL ss
+  | .expr e => passes0 (.expr e)
+  | .assign tok l r => passes0 (.assign tok l r)
+  | .incdec tok e => passes0 (.incdec tok e)
+  | .ifs i c b e => passes0 (.ifs i c b e)
+  | .fors i c p b => passes0 (.fors i c p b)
+  | .forin k v it b => passes0 (.forin k v it b)
+  | .branch tok => passes0 (.branch tok)
+  | .ret e => passes0 (.ret e)
+  | .export e => passes0 (.export e)
+  | .empty => passes0 .empty
+  | .bad => passes0 .bad
+def passesL : List Stmt → Bool
+  | [] => true
+  | s :: ss => passes s && passesL ss
+end
+
+theorem SResT.bind {s s₁ s₂ : CState} {L : List Instr} {F : List Nat} {n₁ n₂ : Nat}
+    (h1 : SResT s s₁ L F n₁) (h2 : ∀ L₁ F₁, Inv s₁ L₁ F₁ → SResT s₁ s₂ L₁ F₁ n₂) :
+    SResT s s₂ L F (n₁ + n₂) := by
+  obtain ⟨B₁, F₁, bs₁, cs₁, o1, t1⟩ := h1
+  obtain ⟨B₂, F₂, bs₂, cs₂, o2, t2⟩ := h2 _ _ o1.inv
+  have e1 : totalSize (L ++ B₁) = totalSize L + totalSize B₁ := totalSize_append _ _
+  refine ⟨B₁ ++ B₂, F₂, bs₁ ++ bs₂, cs₁ ++ cs₂, ⟨by rw [← List.append_assoc]; exact o2.inv,
+    o1.step.trans o2.step, ?_, ?_, by rw [totalSize_append]; have := o1.size; have := o2.size; omega, ?_⟩, ?_⟩
+  · rw [o2.loops, o1.loops, addPend_addPend]
+  · intro hnil
+    obtain ⟨e1, e2⟩ := o1.nopend hnil
+    subst e1; subst e2
+    obtain ⟨e3, e4⟩ := o2.nopend (by rw [o1.loops]; exact addPend_eq_nil hnil)
+    subst e3; subst e4
+    exact ⟨rfl, rfl⟩
+  · have hb2 := o2.blk
+    rw [e1] at hb2
+    have h := o1.blk.append hb2
+    rw [totalSize_append]
+    have e2 : totalSize L + (totalSize B₁ + totalSize B₂) = totalSize L + totalSize B₁ + totalSize B₂ := by omega
+    rw [e2]; exact h
+  · rw [e1] at t2
+    rw [totalSize_append]
+    have e2 : totalSize L + (totalSize B₁ + totalSize B₂) = totalSize L + totalSize B₁ + totalSize B₂ := by omega
+    rw [e2]; exact t1.append t2
+
+theorem SResT.forked {s s₁ : CState} {L : List Instr} {F : List Nat} {n : Nat} (hinv : Inv s L F)
+    (h : SResT (forkS true s) s₁ L F n) : SResT s (unforkS s₁) L F n := by
+  obtain ⟨B, F', bs, cs, ho, ht⟩ := h
+  obtain ⟨hst, t, ps, htb, hb, hne⟩ := Step.unfork ho.step
+  exact ⟨B, F', bs, cs, ⟨ho.inv.unfork htb hb (by rw [hne]; exact hinv.wfc.ne_nil), hst, ho.loops, ho.nopend,
+    ho.size, ho.blk⟩, ht⟩
+
+def StmtT (d : Nat) : Prop := ∀ (st : Stmt), passes st = true → ∀ (s s' : CState) (L : List Instr) (F : List Nat),
+  compileStmt d st s = .ok ((), s') → Inv s L F → szS d st < 2 ^ 30 → SResT s s' L F (szS d st)
+def StmtsT (d : Nat) : Prop := ∀ (ss : List Stmt), passesL ss = true → ∀ (s s' : CState) (L : List Instr) (F : List Nat),
+  compileStmts d ss s = .ok ((), s') → Inv s L F → szSs d ss < 2 ^ 30 → SResT s s' L F (szSs d ss)
+def BlockT (d : Nat) : Prop := ∀ (ss : List Stmt), passesL ss = true → ∀ (s s' : CState) (L : List Instr) (F : List Nat),
+  compileBlock d ss s = .ok ((), s') → Inv s L F → szBlock d ss < 2 ^ 30 → SResT s s' L F (szBlock d ss)
+
+theorem thru_all : ∀ d, StmtT d ∧ StmtsT d ∧ BlockT d
+  | 0 => by
+    refine ⟨?_, ?_, ?_⟩
+    · intro st _ s s' L F h; rw [compileStmt] at h; exact (unsupported_ok h).elim
+    · intro ss _ s s' L F h; rw [compileStmts] at h; exact (unsupported_ok h).elim
+    · intro ss _ s s' L F h; rw [compileBlock] at h; exact (unsupported_ok h).elim
+  | d + 1 => by
+    obtain ⟨ihs, ihss, ihb⟩ := thru_all d
+    refine ⟨?_, ?_, ?_⟩
+    · intro st hp s s' L F h hinv hsz
+      by_cases hb : ∃ ss, st = .block ss
+      · obtain ⟨ss, rfl⟩ := hb
+        rw [compileStmt] at h
+        have hszd : szS (d + 1) (.block ss) = szBlock d ss := by rw [szS]
+        rw [hszd] at hsz ⊢
+        have hp' : passesL ss = true := by rw [passes] at hp; exact hp
+        exact ihb ss hp' s s' L F h hinv hsz
+      · have hp0 : passes0 st = true := by
+          cases st <;> first | (rw [passes] at hp; exact hp) | exact (hb ⟨_, rfl⟩).elim
+        exact stmt_thru0 st hp0 s s' L F h hinv hsz
+    · intro ss hp s s' L F h hinv hsz
+      cases ss with
+      | nil =>
+        rw [compileStmts] at h
+        have e : s' = s := (Prod.mk.inj (pure_ok h)).2
+        subst e
+        rw [szSs]; exact SResT.nil hinv
+      | cons st ss =>
+        rw [compileStmts] at h
+        have hszd : szSs (d + 1) (st :: ss) = szS d st + szSs d ss := by rw [szSs]
+        rw [hszd] at hsz ⊢
+        rw [passesL, Bool.and_eq_true] at hp
+        obtain ⟨_, s1, h1, h⟩ := bind_ok h
+        exact (ihs st hp.1 s s1 L F h1 hinv (by omega)).bind
+          (fun L₁ F₁ hinv1 => ihss ss hp.2 s1 s' L₁ F₁ h hinv1 (by omega))
+    · intro ss hp s s' L F h hinv hsz
+      cases ss with
+      | nil =>
+        rw [compileBlock] at h
+        have e : s' = s := (Prod.mk.inj (pure_ok h)).2
+        subst e
+        rw [szBlock]; exact SResT.nil hinv
+      | cons st ss =>
+        have hcb : compileBlock (d + 1) (st :: ss) = (do fork true; compileStmts d (st :: ss); unfork) := by
+          rw [compileBlock]; simp
+        rw [hcb] at h
+        have hszd : szBlock (d + 1) (st :: ss) = szSs d (st :: ss) := by rw [szBlock]; simp
+        rw [hszd] at hsz ⊢
+        obtain ⟨_, s0, h0, h⟩ := bind_ok h
+        obtain ⟨_, s1, h1, h⟩ := bind_ok h
+        have e0 : s0 = forkS true s := by
+          rw [fork_run] at h0; injection h0 with h0; exact (Prod.mk.inj h0).2.symm
+        have e2 : s' = unforkS s1 := by
+          rw [unfork_run] at h; injection h with h; exact (Prod.mk.inj h).2.symm
+        subst e0; subst e2
+        exact SResT.forked hinv (ihss (st :: ss) hp _ s1 L F h1 hinv.fork hsz)
+
+theorem stmt_thru {d : Nat} (st : Stmt) (hp : passes st = true) (s s' : CState) (L : List Instr) (F : List Nat)
+    (h : compileStmt (d + 1) st s = .ok ((), s')) (hinv : Inv s L F) (hsz : szS (d + 1) st < 2 ^ 30) :
+    SResT s s' L F (szS (d + 1) st) :=
+  (thru_all (d + 1)).1 st hp s s' L F h hinv hsz
 
 /-- **Statement lists.** `pre ++ last :: post` with every statement of `pre` passing, outside any loop: the code of
 `pre` is a closed block `Bp` that lets the dead-code pass through, `last` is compiled (with some positive
